@@ -181,8 +181,9 @@ def scratch_only(reg):
 COORD_ATTRS = {"domain", "c_point", "p"}
 COORD_CALLS = {"get_domain", "get_cpoint", "get_point", "sample_uniform"}
 # documented / relational exceptions: (class, method)
-COORD_EXEMPT = {("Zooming", "receive_reward"): "containment test compares a coordinate with a coordinate (invariant under x -> s*x+t, s>0)",
-                ("DOO", "delta_init"): "default diameter function: documented exception (translation invariant only)",
+# (an order comparison of a coordinate with a coordinate, e.g. Zooming's containment test, is invariant under x -> s*x+t, s>0,
+#  and is allowed everywhere; len() of a coordinate list is the dimension)
+COORD_EXEMPT = {("DOO", "delta_init"): "default diameter function: documented exception (translation invariant only)",
                 ("VROOM_node", "sample_uniform"): "uniform draw inside the cell (affine by the assumed contract of np.random.uniform)",
                 ("P_node", "__init__"): "centre point (affine in the bounds)"}
 
@@ -217,9 +218,10 @@ def coord_free(ct):
                 for n in ast.walk(fd):
                     if isinstance(n, ast.Assign) and is_coord(n.value):
                         for t in n.targets:
-                            if isinstance(t, ast.Name) and t.id not in tainted:
-                                tainted.add(t.id)
-                                changed = True
+                            for t1 in (t.elts if isinstance(t, (ast.Tuple, ast.List)) else [t]):
+                                if isinstance(t1, ast.Name) and t1.id not in tainted:
+                                    tainted.add(t1.id)
+                                    changed = True
                     if isinstance(n, ast.For) and is_coord(n.iter) and isinstance(n.target, ast.Name) and n.target.id not in tainted:
                         tainted.add(n.target.id)
                         changed = True
@@ -230,14 +232,20 @@ def coord_free(ct):
                     # `x is None` / `domain is None` tests presence, not a coordinate
                     if all(isinstance(o, (ast.Is, ast.IsNot)) for o in n.ops):
                         subs = []
+                    # coordinate against coordinate: relational, equivariant
+                    elif all(is_coord(x) for x in subs) and all(isinstance(o, (ast.Lt, ast.LtE, ast.Gt, ast.GtE, ast.Eq, ast.NotEq)) for o in n.ops):
+                        subs = []
                 elif isinstance(n, ast.BinOp):
                     subs = [n.left, n.right]
                 elif isinstance(n, ast.UnaryOp):
                     subs = [n.operand]
                 elif isinstance(n, (ast.If, ast.While, ast.IfExp)):
                     subs = [n.test]
-                elif isinstance(n, ast.Call) and isinstance(n.func, ast.Name) and n.func.id in ("len", "min", "max", "abs", "float", "int", "sorted"):
+                elif isinstance(n, ast.Call) and isinstance(n.func, ast.Name) and n.func.id in ("min", "max", "abs", "float", "int", "sorted", "round"):
                     subs = list(n.args)
+                elif isinstance(n, ast.Call) and isinstance(n.func, ast.Attribute) and isinstance(n.func.value, ast.Name) \
+                        and n.func.value.id in ("np", "numpy", "math"):
+                    subs = list(n.args) + [k.value for k in n.keywords]      # np.isclose(x, lo), math.floor(x) ...
                 for s in subs:
                     if is_coord(s):
                         bad.append("line %d: a coordinate value (%s) enters %s" % (s.lineno, ast.unparse(s)[:40], type(n).__name__))
